@@ -214,6 +214,8 @@ func NewGCPMultiEndpoint(meOpts *GCPMultiEndpointOptions, opts ...grpc.DialOptio
 		}
 	}
 	if err := gme.UpdateMultiEndpoints(meOpts); err != nil {
+		// Release pools (and their monitors) that were created before the failure.
+		gme.Close()
 		return nil, err
 	}
 	return gme, nil
